@@ -8,6 +8,7 @@ Domain   generated histories (1-6 generations per history, nesting to any depth 
          without root, flatten}, invoked on the victim's history, any ancestor history, or the folder above them all
          (which has no history of its own); in a third of the worlds
          the ascmhl folders also hold the temporary files an interrupted create leaves behind.
+         Later additions: histories with more than nine generations (victims from generation 9 on, enumerated).
 Oracle   scope(command) = the history it loads and all descendants; victim in scope => exit code is exactly 31
          (edited) / 33 (manifest removed) / 32 (chain removed) and the before/after snapshot (type, bytes, mtime,
          mode) of the whole scratch area, flatten destination included, is identical.  Out of scope: not asserted.
